@@ -161,7 +161,8 @@ def build(case):
     roots = []
     for number in range(rng.randint(1, 2)):
         roots.append({'name': 'r%d' % number, 'steps': [random_block(rng, ids, 0)]})
-    return {'objects': {}, 'roots': roots, 'start': 0, 'till': None}, rng
+    return {'objects': {}, 'roots': roots, 'start': rng.choice([0, 0, 0, -1, -0.5]),
+            'till': None}, rng
 
 
 def relevant(mechanism):
